@@ -5,26 +5,33 @@ import json, os, subprocess, sys
 suffix = sys.argv[1]
 want = sys.argv[2:]
 AVOID = {
- "C01": "OFFSET dropped without LIMIT; time-dimension truncation changes; splicing a computed dimension's SQL unparenthesised into a pushed-down filter; count_distinct over the key column emitted as COUNT(raw); top-level or in a measure filter losing its parentheses",
- "C02": "composite key concatenated without separator; mixed fan-out/non-fan-out references; skipping symmetric aggregates when a one_to_many hop joins on part of the target's composite key; mislabelled junction hop cardinality in build_adjacency; IS NOT DISTINCT FROM on composite-key hops",
- "C03": "NULL-safe join replaced by = for time dimensions; pushing ORDER BY/LIMIT into the per-model sub-queries; memoised join paths not cleared by build_adjacency(); excluding min/max-only models from the multi-fact decision",
- "C04": "bare IS NULL filter no longer forcing INNER; whitespace inside literals; rewriting a key-only filter onto the foreign key (join elimination); splicing a joined model's dimension SQL unparenthesised; identical segments of two models applied once",
- "C05": "graph-level metric lookup order; select aliases leaking between CTEs / sub-selects; ORDER BY direction inherited from the previous key; dropping a second granularity of the same dimension from the select list",
- "C06": "memoising metric SQL without model context; dropping parentheses around substituted components with * or / at the top; skipping fill_nulls_with when the formula is a COALESCE; dropping NULLIF when a ratio's denominator is a ratio",
- "C07": "coarser granularity computed from declared base bucket; suppressing default time dimensions when another model's time dimension is requested; joining multi-fact sub-results on the finest granularity only; grouping several granularities by the finest only",
- "C08": "granularity test admitting week->year; declared build ranges; routing filtered SUM measures stored as SUM(CASE ... ELSE 0); query-side sets shared between candidate rollups; routing count_distinct at the rollup's own grain",
- "C09": "dropping a name from the week exception; GRANULARITY_HIERARCHY as a defaultdict polluted by the recommender; lru_cache'd nesting sets mutated in place; replacing the query granularity by the dimension's declared one",
- "C10": "skipping a second relationship between a linked pair; registration interleaved with lookups; Dijkstra with a swapped cost tuple; dropping the explicit primary_key of a junction relationship; silently skipping unreachable models in the join loop",
- "C11": "omitting metric sql when equal to the name; not exporting a relationship primary_key equal to 'id'; exporting models in reference order; flattening multi-line SQL on export",
- "C12": "MetricFlow expr omitted when equal to measure name; Cube exporter marking a differently named dimension as primary key; Hex importer expanding of: to a like-named computed dimension; OSI exporter reordering one side of a composite key",
- "C13": "Cube rule requiring measures:; moving the BSL '_.' rule ahead of other rules; skipping files when any component of the given path is hidden; sniffing only the first 32 KiB of a file",
- "C15": "path memo filled with a reversed path; in-place extension of a composite primary-key list during compile; filter-only models appended in set-iteration order; sorting Model.pre_aggregations in place",
- "C16": "multi-pass parameter substitution; non-builtin value types; folding newlines in filters after interpolation; allowing runs of hyphens in unquoted values; not escaping runs of adjacent quotes",
- "C17": "ROWS frame chosen from declared rather than queried granularity; lag offsets derived by floor division (qoq at week grain); partition list extended in place by the grain-to-date branch; hoisting NULLIF into the LAG CTE",
- "C18": "merge DELETE boundary truncated to the bucket; first refresh on an empty rollup; memoising the watermark on the PreAggregation object; calendar lookbacks folded into day counts; watermark = lowest per-dimension-group maximum",
- "C19": "dirty flag cleared before the rebuild; memoised predecessor tree published before being filled; path memo cleared at the end of every rebuild (test-then-read race); in-progress flag letting a second thread search a stale adjacency",
- "C20": "granular time dimensions left out of the join check; supported_granularities consulted before the dimension type; dependencies substituted in name order instead of longest-first; lru_cache'd dependency resolution keyed by graph identity",
+ "C01": "OFFSET dropped without LIMIT; time-dimension truncation changes; splicing a computed dimension's SQL unparenthesised into a pushed-down filter; count_distinct over the key column emitted as COUNT(raw); top-level or in a measure filter losing its parentheses; compile memoised per sorted field signature",
+ "C02": "composite key concatenated without separator; mixed fan-out/non-fan-out references; skipping symmetric aggregates when a one_to_many hop joins on part of the target's composite key; mislabelled junction hop cardinality in build_adjacency; IS NOT DISTINCT FROM on composite-key hops; fan-out classification memoised on the graph and reset only by add_model",
+ "C03": "NULL-safe join replaced by = for time dimensions; pushing ORDER BY/LIMIT into the per-model sub-queries; memoised join paths not cleared by build_adjacency(); excluding min/max-only models from the multi-fact decision; relabelling a many_to_one edge whose foreign key is a declared key as one_to_one",
+ "C04": "bare IS NULL filter no longer forcing INNER; whitespace inside literals; rewriting a key-only filter onto the foreign key (join elimination); splicing a joined model's dimension SQL unparenthesised; identical segments of two models applied once; extending the caller's filters list in place with resolved segments",
+ "C05": "graph-level metric lookup order; select aliases leaking between CTEs / sub-selects; ORDER BY direction inherited from the previous key; dropping a second granularity of the same dimension from the select list; rewritten SQL memoised on the graph by statement text",
+ "C06": "memoising metric SQL without model context; dropping parentheses around substituted components with * or / at the top; skipping fill_nulls_with when the formula is a COALESCE; dropping NULLIF when a ratio's denominator is a ratio; measure-owner index keeping the last model that defines a name",
+ "C07": "coarser granularity computed from declared base bucket; suppressing default time dimensions when another model's time dimension is requested; joining multi-fact sub-results on the finest granularity only; grouping several granularities by the finest only; appending the default time dimension to the caller's dimension list",
+ "C08": "granularity test admitting week->year; declared build ranges; routing filtered SUM measures stored as SUM(CASE ... ELSE 0); query-side sets shared between candidate rollups; routing count_distinct at the rollup's own grain; filter columns memoised per predicate shape that blanks digits inside identifiers",
+ "C09": "dropping a name from the week exception; GRANULARITY_HIERARCHY as a defaultdict polluted by the recommender; lru_cache'd nesting sets mutated in place; replacing the query granularity by the dimension's declared one; cached_property of servable granularities surviving model_copy",
+ "C10": "skipping a second relationship between a linked pair; registration interleaved with lookups; Dijkstra with a swapped cost tuple; dropping the explicit primary_key of a junction relationship; silently skipping unreachable models in the join loop; resumable breadth-first search re-queued at the wrong end",
+ "C11": "omitting metric sql when equal to the name; not exporting a relationship primary_key equal to 'id'; exporting models in reference order; flattening multi-line SQL on export; parsed native documents cached by text hash with shared objects",
+ "C12": "MetricFlow expr omitted when equal to measure name; Cube exporter marking a differently named dimension as primary key; Hex importer expanding of: to a like-named computed dimension; OSI exporter reordering one side of a composite key; Omni importer and exporter disagreeing on the foreign-key side of one_to_one",
+ "C13": "Cube rule requiring measures:; moving the BSL '_.' rule ahead of other rules; skipping files when any component of the given path is hidden; sniffing only the first 32 KiB of a file; native file skipped when its folder already produced MetricFlow models",
+ "C15": "path memo filled with a reversed path; in-place extension of a composite primary-key list during compile; filter-only models appended in set-iteration order; sorting Model.pre_aggregations in place; lru_cache'd sqlglot trees mutated by segment qualification",
+ "C16": "multi-pass parameter substitution; non-builtin value types; folding newlines in filters after interpolation; allowing runs of hyphens in unquoted values; not escaping runs of adjacent quotes; a literal-blanking regex honouring backslash escapes deciding which models a filter names",
+ "C17": "ROWS frame chosen from declared rather than queried granularity; lag offsets derived by floor division (qoq at week grain); partition list extended in place by the grain-to-date branch; hoisting NULLIF into the LAG CTE; class-level LAG table mutated through a shallow copy",
+ "C18": "merge DELETE boundary truncated to the bucket; first refresh on an empty rollup; memoising the watermark on the PreAggregation object; calendar lookbacks folded into day counts; watermark = lowest per-dimension-group maximum; refresh() falling back to refresh_key.update_window in every mode",
+ "C19": "dirty flag cleared before the rebuild; memoised predecessor tree published before being filled; path memo cleared at the end of every rebuild (test-then-read race); in-progress flag letting a second thread search a stale adjacency; dedupe index shared between overlapping adjacency rebuilds",
+ "C20": "granular time dimensions left out of the join check; supported_granularities consulted before the dimension type; dependencies substituted in name order instead of longest-first; lru_cache'd dependency resolution keyed by graph identity; add_model invalidating the adjacency only when the new model declares relationships",
 }
+PREFER = ("Prefer a change whose effect needs a MULTI-STEP sequence of API calls, state carried between calls, or TWO cooperating code sites "
+          "(each harmless alone) -- rather than one more single-expression slip.") if suffix == "e" else (
+          "Do NOT add caches, memo tables or any new state that outlives a call, and do not mutate argument lists (those were tried). Prefer a change "
+          "that only an UNUSUAL INPUT exposes: names (one model's name contained in another's, reserved words, names with digits or underscores that "
+          "collide with generated aliases), string literals that look like identifiers, NULLs and empty tables, composite or non-integer keys, several "
+          "granularities or several time dimensions at once, calendar edges, option combinations (order_by + limit + offset, ungrouped, segments + filters), "
+          "or a dialect other than DuckDB where the property still applies -- ideally inside a text-rewriting, regex, string-formatting or classification step.")
 props = {json.loads(l)["id"]: json.loads(l) for l in open("/verif/properties.jsonl")}
 os.makedirs("/tmp/seed", exist_ok=True)
 for pid in want:
@@ -55,8 +62,7 @@ everyday use would not expose the breakage at once: it must need something speci
 fault at a particular point, a multi-step sequence of operations, an unusual input or data shape, or two cooperating code sites
 that each look fine alone. It should read like a plausible refactor / optimisation / "bug fix" a maintainer could merge
 (10-60 changed lines is typical). Do NOT re-use these mechanisms, which were already tried: {AVOID.get(pid, 'none')}.
-Pick a different code path / clause of the property. Prefer a change whose effect needs a MULTI-STEP sequence of API calls, state
-carried between calls, or TWO cooperating code sites (each harmless alone) -- rather than one more single-expression slip.
+Pick a different code path / clause of the property. {PREFER}
 
 DELIVER into /tmp/seed/out_{sid}/ :
   patch.diff  - `git diff` of your worktree against its HEAD (must apply with `git apply` on a clean checkout of HEAD)
